@@ -1,8 +1,10 @@
 """C19 — time arithmetic exact or None, never panics; monotonic clock and sleep observed.
 
 Tie T: on every run checks/time_extract.py regenerates lean/TinyVerif/Gen/TimePure.lean from the Rust text of
-tiny-std/src/time.rs + rusl/src/platform/compat/time.rs; Props/C19.lean proves the generated public entry points equal
-to the model (gen_agrees_*), the driver evaluates model AND generated definitions against the real code."""
+tiny-std/src/time.rs + rusl/src/platform/compat/time.rs (and the module files they declare: functions are found by
+name wherever they live, impls written by a local macro_rules! are expanded); Props/C19.lean proves the generated
+public entry points equal to the model (gen_agrees_*), the driver evaluates model AND generated definitions against
+the real code (harness/c19: build.rs copies time.rs and every file of time/ and mounts the glue as a child module)."""
 import os
 
 from . import common as C
@@ -162,7 +164,7 @@ def run(ctx):
                 "durations around i64::MAX - t, u64::MAX) operations add/sub/diff/cmp/diffu, drawn from VERIF_SEED; "
                 "distinct_nontrivial = distinct (op, outcome kind, carry/borrow taken, sign of seconds) classes hit")
     ctx.assumptions += [
-        "the model Model/Time.lean describes tiny-std/src/time.rs (checked by the correspondence stream of this run, debug and release builds)",
+        "the model Model/Time.lean describes tiny-std/src/time.rs and the files of tiny-std/src/time/ (checked by the correspondence stream of this run, debug and release builds)",
         "derived Ord on TimeSpec compares (tv_sec, tv_nsec) lexicographically (checked by the cmp cases)",
         "monotonic clock and sleep(d) >= d are kernel behaviour: observed by this run, not proved; the retry loop of thread::sleep is proved (sleep_total) under the nanosleep remaining-time contract",
     ]
@@ -285,7 +287,7 @@ def run(ctx):
     if extract_problems:
         ctx.violation({"kind": "extractor-cannot-translate"},
                       {"problems": extract_problems,
-                       "note": "tiny-std/src/time.rs or rusl/src/platform/compat/time.rs left the translatable fragment: the theorems "
+                       "note": "tiny-std/src/time.rs (with its module files) or rusl/src/platform/compat/time.rs left the translatable fragment: the theorems "
                                "about Gen/TimePure.lean (gen_agrees_*, src_*) no longer speak about the source; the checks above ran "
                                "with the previously generated definitions"}, no_input=True)
     if not ok:
